@@ -459,7 +459,11 @@ def s2b_push_pop(chk: Check, proj: Project, w) -> None:
             n += 1
             chk.analysed(fk)
             cfg = cfg or w.pair.cfgs.get(f)
-            key = f"{m.name.replace('django_components.', '')}:{q}:{short(enclosing_stmt(call))}"
+            # keyed by function + receiver role + method (not by statement text / local spelling)
+            root = recv.split(".")[0].split("[")[0]
+            role = f"<param#{params(f).index(root)}>" + recv[len(root):] if root in params(f) else recv
+            same = [c for c, r_, _h in pushes if r_ == recv and c.func.attr == call.func.attr]
+            key = f"{m.name.replace('django_components.', '')}:{q}:{role}.{call.func.attr}" + (f"#{same.index(call)}" if len(same) > 1 else "")
             pn = cfg.node_containing(call)
             pop_nodes = {x for p in pops for x in cfg.nodes_of(p)}
             start = [s for x in pn for s, lab in x.succ if lab not in ("x", "p")]
